@@ -223,7 +223,7 @@ pub fn digest(files: &std::collections::HashMap<&'static str, String>) -> Value 
               let fa = strs(&fd["attrs"]);
               let (refs, _) = refs_of(ty);
               let sep = fa.iter().any(|a| a.starts_with("serde_as(") && a.contains("StringWith") && a.contains("Separator"));
-              json!({"name": fd["name"], "refs": refs,
+              json!({"name": fd["name"], "refs": refs, "dur": ty.contains("chrono::Duration"),
                 "nested": fa.iter().any(|a| a.starts_with("validate(") && (a.contains("(nested") || a.contains(",nested"))),
                 "len": fa.iter().any(|a| a.starts_with("validate(") && a.contains("length(")),
                 "sep": sep, "sepStr": vec_elem(ty).is_some_and(|e| e == "String")})
@@ -279,8 +279,11 @@ pub fn digest(files: &std::collections::HashMap<&'static str, String>) -> Value 
           }
         }
         "fn" | "trait" | "const" | "static" => {
-          let bytes_body = it["inputs"].as_array().into_iter().flatten().any(|i| i["ty"] == "axum::body::Bytes");
-          items.push(json!({"file": fname, "kind": kind, "name": name, "vis": it["vis"], "ser": false, "de": false, "val": false, "bare": [], "fields": [], "bytesBody": bytes_body}));
+          let in_tys: Vec<String> = it["inputs"].as_array().into_iter().flatten().filter_map(|i| i["ty"].as_str().map(str::to_string)).collect();
+          let bytes_body = in_tys.iter().any(|t| t.contains("axum::body::Bytes"));
+          // an optional request body extracted as Option<String> / Option<Form<T>> / Option<Bytes>
+          let opt_body = in_tys.iter().any(|t| t.starts_with("Option<") && (t == "Option<String>" || t.contains("Form<") || t.contains("Bytes")));
+          items.push(json!({"file": fname, "kind": kind, "name": name, "vis": it["vis"], "ser": false, "de": false, "val": false, "bare": [], "fields": [], "bytesBody": bytes_body, "optBody": opt_body}));
         }
         _ => {}
       }
